@@ -74,9 +74,9 @@ class Base:
 
 class WaitTimerInst(Base):
     def __init__(self, t):
-        self.t = t
-        m = WaitTimer(t)
-        self.name = "WaitTimer(%d)" % t
+        m = WaitTimer(t)                      # as passed (the SoC default is the float 1e6)
+        self.name = "WaitTimer(%r)" % (t,)
+        t = self.t = int(t)                   # documented meaning: `int(t)` cycles
         self.lean_open = "waittimer %d" % t
         self.qual = [None]
         self.alphabet = [(0,), (1,)]
@@ -136,9 +136,11 @@ class BusErrInst(Base):
         self.qual = [None]
         self.alphabet = [(0,), (1,)]
         self._finish(m, [m.bus_error], [m._bus_errors.status])
-        regs = [r for r in self.netlist.regs if len(r) == 32]
-        assert len(regs) == 1, regs
-        self.netlist.ev.signal_values[regs[0]] = init
+        # the module has one register (the counter); it is preloaded through the netlist, which truncates to the
+        # implementation's width -- model and monitor keep the property's 32 bits, so a mis-sized counter shows
+        regs = sorted(self.netlist.regs, key=lambda r: -r.nbits)
+        if regs:
+            self.netlist.set(regs[0], init)
         self.netlist.settle()
 
     def make_env(self, rng):
@@ -223,16 +225,24 @@ class WbSharedInst(Base):
     """n masters x k slaves; slave j answers iff adr >> sh == j (slots >= k are unmapped).
     letter: per master cyc stb adr ; per slave ack err dat_r
     outs  : per slave cyc stb adr ; per master ack err dat_r ; [shared: error grant]"""
-    def __init__(self, n, k, t, dw=8, sh=1, reg=False, kind="shared", alphabet=None):
-        self.n, self.k, self.t, self.dw, self.sh, self.reg, self.kind = n, k, t, dw, sh, reg, kind
+    def __init__(self, n, k, t, dw=8, sh=1, reg=False, kind="shared", alphabet=None, m_aws=None):
+        """t: cycles (int or float, as users pass it), None (no timeout) or "default" (argument omitted: 1e6).
+        m_aws: per-master adr widths (default sh + 2 everywhere): the shared bus is sized by the widest master."""
         aw = sh + 2
-        ms = [wishbone.Interface(data_width=dw, adr_width=aw) for _ in range(n)]
+        self.m_aws = list(m_aws) if m_aws else [aw] * n
+        ms = [wishbone.Interface(data_width=dw, adr_width=w) for w in self.m_aws]
         ss = [wishbone.Interface(data_width=dw, adr_width=aw) for _ in range(k)]
         slaves = [((lambda a, j=j: a[sh:] == j), s) for j, s in enumerate(ss)]
         cls = wishbone.InterconnectShared if kind == "shared" else wishbone.Crossbar
-        m = cls(ms, slaves, register=reg, timeout_cycles=t)
+        if t == "default":
+            m = cls(ms, slaves, register=reg)
+        else:
+            m = cls(ms, slaves, register=reg, timeout_cycles=t)
         self.module, self.masters, self.slaves = m, ms, ss
-        self.name = "wishbone.%s(%dx%d,timeout=%s%s)/%db" % (cls.__name__, n, k, t, ",register" if reg else "", dw)
+        self.name = "wishbone.%s(%dx%d,timeout=%r%s%s)/%db" % (cls.__name__, n, k, t, ",register" if reg else "",
+                                                            ",adr_widths=%s" % self.m_aws if m_aws else "", dw)
+        t = 10 ** 6 if t == "default" else (None if t is None else int(t))
+        self.n, self.k, self.t, self.dw, self.sh, self.reg, self.kind = n, k, t, dw, sh, reg, kind
         tt = "none" if t is None else str(t)
         if kind == "shared":
             self.lean_open = "wbshared %d %d %d %s %d %d" % (n, k, int(reg), tt, dw, sh)
@@ -280,7 +290,8 @@ def wb_alphabet(n, k, sh, m_parts=None, s_parts=None):
     if s_parts is None:
         s_parts = [(0, 0, 0), (0, 0, 0x3c), (1, 0, 0xa5), (1, 1, 0x3c), (0, 1, 0)]
     out = []
-    for combo in itertools.product(*([m_parts] * n + [s_parts] * k)):
+    per_master = m_parts if isinstance(m_parts[0], list) else [m_parts] * n       # per-master parts allowed
+    for combo in itertools.product(*(per_master + [s_parts] * k)):
         out.append(tuple(itertools.chain.from_iterable(combo)))
     return out
 
@@ -296,8 +307,13 @@ class WbEnv:
         self.s = [dict(seen=0, lat=self._lat(rng)) for _ in range(k)]
         self.prev_letter = None
 
+    def amask(self, i):
+        """Address range of master i, from the adr width given to ITS constructor."""
+        aws = getattr(self.i, "m_aws", None)
+        return (1 << (aws[i] if aws else self.i.sh + 2)) - 1
+
     def _lat(self, rng):
-        t = self.i.t or 4
+        t = min(self.i.t or 4, 300)
         r = rng.random()
         if r < 0.25:
             return None                                    # silent for this request
@@ -338,7 +354,7 @@ class WbEnv:
                 elif rng.random() < 0.7:
                     m["st"] = "req"
                     slot = k if rng.random() < 0.15 else rng.randrange(k)
-                    m["adr"] = (slot << sh) | rng.getrandbits(sh)
+                    m["adr"] = ((slot << sh) | rng.getrandbits(sh)) & self.amask(i)
             if m["st"] == "req":
                 r = rng.random()
                 if r < 0.01:                                   # withdraw
@@ -350,7 +366,7 @@ class WbEnv:
                 else:
                     out += [1, 1, m["adr"]]
             else:
-                out += [1 if rng.random() < 0.05 else 0, 0, rng.getrandbits(sh + 2)]
+                out += [1 if rng.random() < 0.05 else 0, 0, rng.getrandbits(sh + 2) & self.amask(i)]
         dmask = (1 << inst.dw) - 1
         for j in range(k):
             s = self.s[j]
@@ -392,6 +408,12 @@ class WbMonitor:
             if i != g and to_m[i][0]:
                 msg = "master %d sees ack while master %d owns the bus" % (i, g)
         any_ack = any(s[0] for s in ss)
+        slot = adr >> self.sh
+        for j in range(k):
+            want = 1 if (cyc and slot == j) else 0
+            if outs[3 * j] != want and not msg:
+                msg = "slave %d sees cyc=%d while the owner (master %d) drives cyc=%d adr=%#x (%s)" % (
+                    j, outs[3 * j], g, cyc, adr, "unmapped" if slot >= k else "slave %d" % slot)
         st = self.stats
         if self.waited >= t:
             st["timeouts"] += 1
@@ -503,11 +525,14 @@ class AxSharedInst(Base):
                per slave arr rv rresp rdata rlast
        outs  : per slave awv awa wv br ; per master awr wr bv bresp ; per slave arv ara rr ;
                per master arr rv rresp rdata rlast ; error grant_w grant_r"""
-    def __init__(self, full, n, k, t, dw=8, sh=4, alphabet=None, tag="", kind="shared"):
+    def __init__(self, full, n, k, t, dw=8, sh=4, alphabet=None, tag="", kind="shared", m_aws=None):
         self.full, self.n, self.k, self.t, self.dw, self.sh, self.kind = full, n, k, t, dw, sh, kind
         I = axi_full.AXIInterface if full else axi_lite.AXILiteInterface
         aw = sh + 2
-        ms = [I(data_width=dw, address_width=aw) for _ in range(n)]
+        self.m_aws = list(m_aws) if m_aws else [aw] * n
+        if m_aws:
+            tag += "/address_widths=%s" % self.m_aws
+        ms = [I(data_width=dw, address_width=w) for w in self.m_aws]
         ss = [I(data_width=dw, address_width=aw) for _ in range(k)]
         ash = (dw // 8).bit_length() - 1
         assert sh >= ash
@@ -715,7 +740,7 @@ class AxEnv:
                 elif rng.random() < 0.6:
                     m["st"] = "addr"
                     slot = k if (rng.random() < 0.15 and self.unmapped) else rng.randrange(k)
-                    m["adr"] = (slot << sh) | rng.getrandbits(sh)
+                    m["adr"] = ((slot << sh) | rng.getrandbits(sh)) & ((1 << inst.m_aws[i]) - 1)
                     m["aw"], m["w"] = 1, 1
                     m["wdelay"] = rng.choice((0, 0, 0, 1, 3))
             if m["st"] == "addr":
@@ -727,7 +752,7 @@ class AxEnv:
             elif m["st"] == "resp":
                 out += [0, m["adr"], 0, 1 if rng.random() < 0.7 else 0]
             else:
-                out += [0, m["adr"] if rng.random() < 0.7 else rng.getrandbits(sh + 2), 0, 1 if rng.random() < 0.2 else 0]
+                out += [0, m["adr"] if rng.random() < 0.7 else rng.getrandbits(inst.m_aws[i]), 0, 1 if rng.random() < 0.2 else 0]
         for j in range(k):
             s = self.sw[j]
             awr = 1 if (s["lat"] is not None and s["aw_seen"] >= s["lat"]) else 0
@@ -744,13 +769,13 @@ class AxEnv:
                 elif rng.random() < 0.6:
                     m["st"] = "addr"
                     slot = k if (rng.random() < 0.15 and self.unmapped) else rng.randrange(k)
-                    m["adr"] = (slot << sh) | rng.getrandbits(sh)
+                    m["adr"] = ((slot << sh) | rng.getrandbits(sh)) & ((1 << inst.m_aws[i]) - 1)
             if m["st"] == "addr":
                 out += [1, m["adr"], 1 if rng.random() < 0.2 else 0]
             elif m["st"] == "resp":
                 out += [0, m["adr"], 1 if rng.random() < 0.7 else 0]
             else:
-                out += [0, m["adr"] if rng.random() < 0.7 else rng.getrandbits(sh + 2), 1 if rng.random() < 0.2 else 0]
+                out += [0, m["adr"] if rng.random() < 0.7 else rng.getrandbits(inst.m_aws[i]), 1 if rng.random() < 0.2 else 0]
         for j in range(k):
             s = self.sr[j]
             arr = 1 if (s["lat"] is not None and s["seen"] >= s["lat"]) else 0
@@ -1093,15 +1118,19 @@ def build_soc(std, ic, t, dw=32):
     else:
         m = axi_full.AXIInterface(data_width=dw, address_width=32, id_width=1)
     soc.bus.add_master(name="tb", master=m)
+    m2 = type(m)(data_width=dw, address_width=32, addressing="word") if std == "wishbone" else \
+        type(m)(data_width=dw, address_width=32)
+    soc.bus.add_master(name="tb2", master=m2)
     soc.finalize()
-    return soc, m
+    return soc, (m, m2)
 
 
 class SocTb:
     """Drives one bus transaction at a time on the test-bench master of a finalized SoC."""
     def __init__(self, std, ic, t, dw=32):
         self.std, self.ic, self.t, self.dw = std, ic, t, dw
-        self.soc, self.m = build_soc(std, ic, t, dw)
+        self.soc, self.ms = build_soc(std, ic, t, dw)
+        self.m = self.ms[0]
         self.n = LazyNetlist(self.soc)
         self.cycle = 0
 
@@ -1118,11 +1147,24 @@ class SocTb:
             self.n.settle()
             self._tick()
 
-    def access(self, addr, write=False, data=0, limit=None):
+    def access(self, addr, write=False, data=0, limit=None, master=0):
         """Returns (latency in cycles from the first request cycle to the terminating handshake or None,
         read data or None, error indication seen at the master: all-ones/SLVERR)."""
-        n, m, std = self.n, self.m, self.std
+        n, m, std = self.n, self.ms[master], self.std
         limit = limit or (self.t + 40)
+        arb = getattr(self.soc.bus._interconnect, "arbiter", None)
+        gsig = None
+        if arb is not None:
+            gsig = arb.rr.grant if std == "wishbone" else (arb.rr_write.grant if write else arb.rr_read.grant)
+        c0 = [None]
+
+        def lat(c):
+            """cycles since this master was granted the bus ("after it has been granted")."""
+            return c - (c0[0] if c0[0] is not None else 0)
+
+        def seen_grant(c):
+            if c0[0] is None and (gsig is None or n.getu(gsig) == master):
+                c0[0] = c
         ones = (1 << self.dw) - 1
         if std == "wishbone":
             n.set(m.adr, addr // (self.dw // 8))
@@ -1134,9 +1176,10 @@ class SocTb:
             res = (None, None, None)
             for c in range(limit):
                 n.settle()
+                seen_grant(c)
                 if n.getu(m.ack):
                     d = n.getu(m.dat_r)
-                    res = (c, d, d == ones and not n.getu(m.err))
+                    res = (lat(c), d, d == ones and not n.getu(m.err))
                     self._tick()
                     break
                 self._tick()
@@ -1161,8 +1204,9 @@ class SocTb:
                 n.set(m.w.valid, st["w"])
                 n.set(m.b.ready, int(not st["aw"] and not st["w"]))
                 n.settle()
+                seen_grant(c)
                 if not st["aw"] and not st["w"] and n.getu(m.b.valid):
-                    res = (c, None, n.getu(m.b.resp) == 2)
+                    res = (lat(c), None, n.getu(m.b.resp) == 2)
                     self._tick()
                     break
                 if st["aw"] and n.getu(m.aw.ready):
@@ -1186,10 +1230,11 @@ class SocTb:
             n.set(m.ar.valid, st["ar"])
             n.set(m.r.ready, int(not st["ar"]))
             n.settle()
+            seen_grant(c)
             if not st["ar"] and n.getu(m.r.valid):
                 d = n.getu(m.r.data)
                 ok_last = (not full) or n.getu(m.r.last)
-                res = (c, d, n.getu(m.r.resp) == 2 and d == ones and bool(ok_last))
+                res = (lat(c), d, n.getu(m.r.resp) == 2 and d == ones and bool(ok_last))
                 self._tick()
                 break
             if st["ar"] and n.getu(m.ar.ready):
@@ -1224,7 +1269,8 @@ def soc_scenario(std, ic, t, rng, nops=14, dw=32):
         if r < 0.45:
             addr = rng.choice(UNMAPPED)
             wr = rng.random() < 0.4
-            lat, d, err = tb.access(addr, write=wr, data=rng.getrandbits(dw))
+            who = rng.randrange(2)
+            lat, d, err = tb.access(addr, write=wr, data=rng.getrandbits(dw), master=who)
             timeouts += 1
             if lat is None:
                 problems.append("op %d: %s of unmapped %#x not terminated within %d cycles" % (k, "write" if wr else "read", addr, t + 40))
@@ -1239,7 +1285,8 @@ def soc_scenario(std, ic, t, rng, nops=14, dw=32):
             i = rng.randrange(len(shadow))
             wr = rng.random() < 0.4
             val = rng.getrandbits(dw)
-            lat, d, err = tb.access(RAM0 + (dw // 8) * i, write=wr, data=val)
+            who = rng.randrange(2)
+            lat, d, err = tb.access(RAM0 + (dw // 8) * i, write=wr, data=val, master=who)
             if lat is None:
                 problems.append("op %d: RAM access not completed (after %d timeouts)" % (k, timeouts))
                 break
